@@ -372,6 +372,11 @@ package eval
 //@   ensures [error-identity] (=> (not (= $ret1 ENil)) (= $ret1 (heap last.err)))
 //@   ensures [frame] (forall ((r Int)) (! (=> (< r (old (next))) (= (select (heap E_Value) r) (select (old (heap E_Value)) r))) :pattern ((select (heap E_Value) r))))
 //@   assigns next E_Value sent.* dyn.* last.err inv.*
+//@   callsite [params-are-operands] (let ((K (KIND $fnbase)) (cc (fld $fnbase childCnt)))
+//@       (and (=> (= K 3) (and (= (len $arg1) cc)
+//@                 (forall ((j Int)) (=> (and (<= 0 j) (< j cc)) (= (idx $arg1 j) (idx $os (+ (fld $fnbase osTop) j)))))))
+//@            (=> (= K 4) (= (len $arg1) 2))
+//@            (=> (= K 5) (= (len $arg1) 1))))
 //@   loop 1 (i)
 //@     invariant [position] (and (<= 0 $i) (<= $i (len (fld $e nodes))) (=> (< $i (len (fld $e nodes))) (and (vis $i) (= $osTop (- (pre $i) 1)))))
 //@     invariant [stack] (and (fresh $os) (= (off $os) 0) (>= (len $os) (fld $e maxStackSize)) (>= (len $os) 8))
@@ -657,6 +662,11 @@ package eval
 //@   ensures [error-identity] (=> (not (= $ret1 ENil)) (= $ret1 (heap last.err)))
 //@   ensures [frame] (forall ((r Int)) (! (=> (< r (old (next))) (= (select (heap E_Value) r) (select (old (heap E_Value)) r))) :pattern ((select (heap E_Value) r))))
 //@   assigns next E_Value sent.* dyn.* last.err inv.*
+//@   callsite [executeOperatorProxy:params-are-operands] (let ((K (KIND $arg1)) (cc (fld $arg1 childCnt)))
+//@       (and (=> (= K 3) (and (= (len $arg2) cc)
+//@                 (forall ((j Int)) (=> (and (<= 0 j) (< j cc)) (= (idx $arg2 j) (idx $os (+ (fld $arg1 osTop) j)))))))
+//@            (=> (= K 4) (= (len $arg2) 2))))
+//@   callsite [cond-gets-one-operand] (=> (= (KIND $fnbase) 5) (= (len $arg1) 1))
 //@   loop 1 (i)
 //@     invariant [position] (and (<= 0 $i) (<= $i (len (fld $e nodes))) (=> (< $i (len (fld $e nodes))) (and (vis $i) (= $osTop (- (pre $i) 1)))))
 //@     invariant [stack] (and (fresh $os) (= (off $os) 0) (>= (len $os) (fld $e maxStackSize)) (>= (len $os) 8))
